@@ -17,6 +17,15 @@ Ltac rq_leaf := first [ reflexivity | ring | (unfold Rdiv; ring) | (unfold Rdiv;
 Ltac rq :=
   solve [ rq_leaf
         | match goal with
+          | |- (if Rle_dec ?a ?b then _ else _) = (if Rle_dec ?a' ?b' then _ else _) =>
+              let Ea := fresh in let Eb := fresh in
+              assert (Ea : a' = a) by rq; assert (Eb : b' = b) by rq; rewrite ?Ea, ?Eb; rq
+          | |- (if Rlt_dec ?a ?b then _ else _) = (if Rlt_dec ?a' ?b' then _ else _) =>
+              let Ea := fresh in let Eb := fresh in
+              assert (Ea : a' = a) by rq; assert (Eb : b' = b) by rq; rewrite ?Ea, ?Eb; rq
+          | |- (if Req_EM_T ?a ?b then _ else _) = (if Req_EM_T ?a' ?b' then _ else _) =>
+              let Ea := fresh in let Eb := fresh in
+              assert (Ea : a' = a) by rq; assert (Eb : b' = b) by rq; rewrite ?Ea, ?Eb; rq
           | |- (_, _) = (_, _) => apply f_equal2; rq
           | |- Some _ = Some _ => apply f_equal; rq
           | |- sqrt _ = sqrt _ => apply f_equal; rq
@@ -37,6 +46,16 @@ Ltac rq :=
           | |- _ => progress f_equal; rq      (* n-ary constructors (result records): argument by argument *)
           end ].
 
+(* `canon_to t`: every real subterm of the goal that equals the textbook spelling `t` as a ring expression, but is written
+   differently (operands in another order, regrouped), is replaced by `t` - so that a proof script written for the
+   textbook spelling applies to whatever spelling the generated text uses *)
+Ltac canon_to t :=
+  repeat match goal with
+         | |- context [?e] =>
+             lazymatch type of e with R => idtac end;
+             tryif constr_eq e t then fail else (replace e with t by ring)
+         end.
+
 Example rq_test1 a b c : sqrt (Rmax (a / b + c / b) 0) = sqrt (Rmax (c / b + a / b) 0).
 Proof. rq. Qed.
 Example rq_test2 p cn tn : sqrt (Rmax (p * (1 / cn + 1 / tn)) 0) = sqrt (Rmax (p / cn + p / tn) 0).
@@ -50,4 +69,8 @@ Proof. split; rq. Qed.
 Example rq_test6 f (a b : R) : f (a + b) * exp (b * a) + a = a + exp (a * b) * f (b + a).
 Proof. rq. Qed.
 Example rq_test7 a b c na nb : (a + b / (na + nb) + c) / (na + nb - 1) = (c + b / (nb + na) + a) / (nb + na - 1).
+Proof. rq. Qed.
+Example canon_test k n p : sqrt (p * n * (1 - p)) + (k - p * n) = sqrt (n * p * (1 - p)) + (k - n * p).
+Proof. canon_to (k - n * p). canon_to (n * p * (1 - p)). reflexivity. Qed.
+Example rq_test8 p a t : (Rmin a t, (if Rle_dec p (Rmax a t) then true else false)) = (Rmin t a, (if Rle_dec p (Rmax t a) then true else false)).
 Proof. rq. Qed.
